@@ -95,8 +95,13 @@ def run_for_property(prop, repo, jobs=16):
     from .main import run_property
     import io
     import contextlib
-    with contextlib.redirect_stdout(io.StringIO()):
-        _, base_results = run_property(prop, 'quick', repo, evidence=False, quiet=True, battery=False)
+    buf0 = io.StringIO()
+    with contextlib.redirect_stdout(buf0):
+        base = run_property(prop, 'quick', repo, evidence=False, quiet=True, battery=False)
+    if isinstance(base, int):
+        raise AnalysisError('mutant battery: the run on the unchanged tree failed: ' +
+                            ' | '.join(l for l in buf0.getvalue().splitlines() if l.startswith('ANALYSIS-ERROR'))[:400])
+    _, base_results = base
     baseline = {(f.rule, f.construct, f.detail) for r in base_results for f in r.findings}
     with concurrent.futures.ProcessPoolExecutor(max_workers=min(jobs, len(specs))) as ex:
         outs = list(ex.map(_run_one, [(m, repo) for m in specs]))
